@@ -21,15 +21,25 @@ pub struct PanicRec {
 impl PanicRec {
     /// a panic raised by code under /repo (sozu) rather than by the harness or a dependency
     pub fn in_sozu(&self) -> bool {
-        self.location.starts_with("/repo/")
+        self.location.starts_with(&sozu_root())
     }
     pub fn signature(&self) -> String {
         // file:line without the column, stable enough to key a finding on
         let mut parts = self.location.rsplitn(2, ':');
         let _col = parts.next();
         let file_line = parts.next().unwrap_or(&self.location);
-        format!("panic@{}", file_line.trim_start_matches("/repo/"))
+        format!("panic@{}", file_line.trim_start_matches(sozu_root().as_str()))
     }
+}
+
+/// where the sozu sources under test live: /repo/, or $VH_SOZU_ROOT when the harness was built
+/// against a scratch copy (mutation testing)
+pub fn sozu_root() -> String {
+    let mut r = std::env::var("VH_SOZU_ROOT").unwrap_or_else(|_| "/repo/".to_owned());
+    if !r.ends_with('/') {
+        r.push('/');
+    }
+    r
 }
 
 fn panics() -> &'static Mutex<HashMap<String, Vec<PanicRec>>> {
